@@ -106,8 +106,47 @@ enum KeyEnum {
     South,
 }
 
+/// Serialised through `Serializer::collect_str` (as paths, addresses, ids often are); its
+/// `Display` writes its text piecewise, character-wise or through padding with a fill character.
+#[derive(Debug, Clone)]
+struct Shown {
+    text: String,
+    style: u8,
+}
+
+impl std::fmt::Display for Shown {
+    fn fmt(&self, f: &mut std::fmt::Formatter<'_>) -> std::fmt::Result {
+        use std::fmt::Write;
+        match self.style % 4 {
+            0 => f.write_str(&self.text),
+            1 => {
+                for c in self.text.chars() {
+                    f.write_char(c)?;
+                }
+                Ok(())
+            }
+            2 => write!(f, "{:\"<9}|{:\\>7}|{:\u{0}^5}", self.text, 'q', "m"),
+            _ => {
+                for c in self.text.chars() {
+                    write!(f, "{}", c)?;
+                    f.write_str("-")?;
+                }
+                Ok(())
+            }
+        }
+    }
+}
+
+impl Serialize for Shown {
+    fn serialize<S: serde::Serializer>(&self, s: S) -> Result<S::Ok, S::Error> {
+        s.collect_str(self)
+    }
+}
+
 #[derive(Debug, Clone, Serialize)]
 enum Zoo {
+    Shown(Shown),
+    ShownKey(BTreeMap<String, Shown>),
     Unit,
     NewInt(i64),
     NewStr(String),
@@ -167,7 +206,7 @@ fn zoo_str(t: &mut Tape) -> String {
 
 fn gen_zoo(t: &mut Tape, depth: usize) -> Zoo {
     let leaf_only = depth == 0;
-    let pick = if leaf_only { 12 + t.draw(19) } else { t.draw(31) };
+    let pick = if leaf_only { 12 + t.draw(21) } else { t.draw(33) };
     let child = |t: &mut Tape| Box::new(gen_zoo(t, depth - 1));
     match pick {
         0 => Zoo::Struct { a: child(t), b: if t.draw(2) == 0 { None } else { Some(child(t)) } },
@@ -194,6 +233,8 @@ fn gen_zoo(t: &mut Tape, depth: usize) -> Zoo {
         27 => Zoo::Renamed { x: t.draw(10) as i32, skipped: if t.draw(2) == 0 { None } else { Some(3) } },
         28 => [Zoo::Adj(Adj::A), Zoo::Adj(Adj::B { x: 4 }), Zoo::Adj(Adj::C(zoo_str(t))), Zoo::Internal(Internal::P), Zoo::Internal(Internal::Q { y: true }), Zoo::Untagged(Untagged::N(5)), Zoo::Untagged(Untagged::S { s: zoo_str(t) })][t.draw(7)].clone(),
         29 => Zoo::Flat(Flat { k: 1, rest: (0..t.draw(3)).map(|i| (format!("f{i}"), i as i32)).collect() }),
+        30 => Zoo::Shown(Shown { text: zoo_str(t), style: t.draw(4) as u8 }),
+        31 => Zoo::ShownKey((0..t.draw(3)).map(|i| (format!("s{i}"), Shown { text: zoo_str(t), style: t.draw(4) as u8 })).collect()),
         _ => Zoo::Nested((0..t.draw(3)).map(|i| (0..i + t.draw(2)).map(|j| if j % 2 == 0 { None } else { Some(()) }).collect()).collect()),
     }
 }
